@@ -64,14 +64,19 @@ def _ids(v):
     raise CheckerError(f"unexpected upstream value {v!r}")
 
 
-def body_value(tag, x, y, z):
-    """the value a job produces: a provenance id built from its own tag and the ids it consumed"""
-    return {"id": f"{tag}<{'+'.join(_ids(x) + _ids(y) + _ids(z))}>"}
+GEN_ENV = "VF_SCHED_GEN"
+
+
+def body_value(tag, x, y, z, gen=1):
+    """the value a job produces: a provenance id built from its own tag and the ids it consumed; executions of a
+    later submission (gen >= 2, only when a history asks for it) mark their value, so that a value left over
+    from an earlier submission is recognisable wherever it is consumed"""
+    return {"id": f"{tag}<{'+'.join(_ids(x) + _ids(y) + _ids(z))}>" + (f"#g{gen}" if gen > 1 else "")}
 
 
 @python.define
 def N(tag: int, x: ty.Any = None, y: ty.Any = None, z: ty.Any = None, delay: float = 0.0) -> ty.Any:
-    v = body_value(tag, x, y, z)
+    v = body_value(tag, x, y, z, int(os.environ.get(GEN_ENV, "1")))
     log = os.environ.get("VF_SCHED_BODYLOG")
     if log:
         with open(log, "a") as f:
@@ -294,9 +299,10 @@ class Opts:
     prior: str = "none"
     rerun: bool = False
     propagate: bool = True
+    genmark: bool = False  # executions of the second submission produce values that differ from the first one's
 
     def key(self):
-        return (self.spec, self.variant, self.loop, self.realise, self.k, self.fail, tuple(self.vis), self.multi, self.probe, self.prior, self.rerun, self.propagate)
+        return (self.spec, self.variant, self.loop, self.realise, self.k, self.fail, tuple(self.vis), self.multi, self.probe, self.prior, self.rerun, self.propagate, self.genmark)
 
     def asdict(self):
         return attrs.asdict(self)
@@ -341,6 +347,9 @@ class ScriptedSyncWorker(Worker):
     _plugin_name = "vf-scripted-sync"
 
     def run(self, job, rerun=False):
+        hit = self.ctl.cache_hit(job, rerun)
+        if hit is not None:
+            return hit
         return self.ctl.run_now(job)
 
     def __getstate__(self):
@@ -456,6 +465,7 @@ class Controller:
         self.nfail = 0
         self.steps = 0
         self.ncalls = 0
+        self.gen = 2 if (opts.prior != "none" and opts.genmark) else 1  # generation mark of the values produced
         self.stall_polls = 0  # polls of the current `nothing runnable, nothing executing` episode of the real loop
         self.record_real_calls = False
 
@@ -495,7 +505,7 @@ class Controller:
             "checksum": job.checksum,
             "inputs": {s: _ids(getattr(t, s)) for s in ("x", "y", "z")},
             "raw_none": [s for s, p in zip(("x", "y", "z"), self.spec.node(job.name).preds) if getattr(t, s) is None],
-            "id": body_value(t.tag, t.x, t.y, t.z)["id"],
+            "id": body_value(t.tag, t.x, t.y, t.z, self.gen)["id"],
         }
         self.pending.append(lb)
         d = self.o.vis[self.script.choose(len(self.o.vis), f"vis {lb}")] if len(self.o.vis) > 1 else self.o.vis[0]
@@ -578,7 +588,7 @@ class Controller:
         if ok:
             # (the task copy a real run stores in the result is left out: nothing in the scheduler reads it and
             #  pickling it is a third of the cost of a history; realise="run" histories keep it)
-            res = Result(outputs=t.Outputs(out=body_value(t.tag, t.x, t.y, t.z)), runtime=None, errored=False, cache_dir=cd)
+            res = Result(outputs=t.Outputs(out=body_value(t.tag, t.x, t.y, t.z, self.gen)), runtime=None, errored=False, cache_dir=cd)
             save(cd, result=res)
             return res, None
         res = Result(outputs=None, runtime=None, errored=True, cache_dir=cd)
@@ -615,6 +625,8 @@ class Controller:
                 raise exc
             return res
         self.submit(job, future=False)
+        if self.o.prior != "none" and job.cache_dir.exists():
+            shutil.rmtree(job.cache_dir)  # Job._populate_filesystem: a re-execution first clears the old directory
         ok = True
         if self.nfail < self.o.fail:
             ok = self.script.choose(2, f"{lb} ok/fail") == 0
@@ -717,6 +729,7 @@ def drive(opts: Opts, script: Script):
         wf_job = Job(W(a=1), submitter=sub, name="main")
         h = ctl.h
         h["first"] = first
+        os.environ[GEN_ENV] = str(ctl.gen)
         if opts.loop == "real":
             graph = _drive_real(opts, ctl, sub, wf_job, rerun=opts.rerun)
         else:
@@ -739,6 +752,7 @@ def drive(opts: Opts, script: Script):
         if ctl is not None:
             ctl.cancel()
         _CTL_REF[0] = None
+        os.environ.pop(GEN_ENV, None)
         shutil.rmtree(root, ignore_errors=True)
         try:
             os.unlink(str(root) + ".fail")
@@ -753,8 +767,8 @@ def _first_submission(opts, spec, W, root):
     from pydra.engine.job import Job
     from pydra.engine.workflow import Workflow
 
-    if opts.loop != "real" or opts.variant != "async":
-        raise CheckerError("two-submission histories are driven with the real asynchronous loop only")
+    if opts.loop != "real":
+        raise CheckerError("two-submission histories are driven with the real loops only")
     Workflow.clear_cache()
     o1 = Opts(opts.spec, loop="real")
     worker = ScriptedWorker()
@@ -884,7 +898,7 @@ def _drive_real(opts, ctl, sub, wf_job, rerun=False):
     ctl.record_real_calls = True
     if opts.variant == "sync":
         try:
-            sub.expand_workflow(wf_job, False)
+            sub.expand_workflow(wf_job, rerun)
         except CheckerError:
             raise
         except Exception as e:  # noqa
@@ -953,13 +967,20 @@ def timeline(h):
             finished[e[1]] = e[2]
 
 
-def c15_problems(h, spec: WfSpec):
+def c15_problems(h, spec: WfSpec, second=None):
     """C15: no job starts before every upstream job whose outputs it consumes has completed
     successfully; every job of the workflow is executed exactly once.
     Accepts both readings of `consumes` (job level is the weaker demand and is what is checked):
     a slot fed by an un-combined upstream node holds the value of exactly one successfully finished
-    job of that node; a slot fed by a combined node holds the values of all of its jobs."""
+    job of that node; a slot fed by a combined node holds the values of all of its jobs.
+
+    second = {"effective": bool, "stored": {label: bool}} for the SECOND submission of a workflow into a cache
+    root holding results of a first one.  If the rerun request reaches the jobs (rerun and propagate_rerun) every
+    job is executed (exactly once) in this submission and consumes only values produced in this submission;
+    otherwise a stored result counts as `taken from the cache`: it is never executed again, jobs without a
+    stored result are executed and may consume stored values of upstream jobs."""
     bad = []
+    tag2node = {100 * (i + 1): nd.name for i, nd in enumerate(spec.nodes)}
     id2job = {j["id"]: lb for lb, j in h["jobs"].items()}
     nsub = {}
     for i, e, executing, finished in timeline(h):
@@ -974,7 +995,14 @@ def c15_problems(h, spec: WfSpec):
         for slot, p in zip(("x", "y", "z"), nd.preds):
             prod = [id2job.get(v) for v in j["inputs"][slot]]
             if any(q is None for q in prod):
-                bad.append(("consumed-value-without-producer", f"{lb}.{slot} holds a value no started job produces"))
+                unknown = [v for v, q in zip(j["inputs"][slot], prod) if q is None]
+                from_cache = second is not None and all(tag2node.get(int(v.split("<")[0]) // 100 * 100) == p for v in unknown)
+                if from_cache and not second["effective"]:
+                    continue  # values of stored results of the upstream node: taken from the cache
+                if from_cache:
+                    bad.append(("consumed-value-of-earlier-submission", f"{lb}.{slot} holds {unknown}: produced by the first submission, not by this one (rerun requested for every job)"))
+                else:
+                    bad.append(("consumed-value-without-producer", f"{lb}.{slot} holds a value no started job produces"))
                 continue
             for q in prod:
                 if h["jobs"][q]["node"] != p:
@@ -997,7 +1025,14 @@ def c15_problems(h, spec: WfSpec):
     if not ended and not fails:
         r = h["raised"]
         bad.append(("loop-did-not-complete", f"the loop did not complete although no job failed: {r['type'] + ': ' + r['msg'][:120] if r else 'stalled'}"))
-    if ended and not fails and h["nodes"]:
+    if second is not None:
+        fin = _finished(h)
+        for lb, had in second["stored"].items():
+            if had and not second["effective"] and lb in nsub:
+                bad.append(("executed-although-cached", f"{lb} was executed again although its result was stored and no rerun reaches it"))
+            if ended and not fails and (second["effective"] or not had) and fin.get(lb) != "ok":
+                bad.append(("never-executed", f"job {lb} ({'stored result, rerun requested' if had else 'no stored result'}) was not executed in this submission"))
+    elif ended and not fails and h["nodes"]:
         for nd in spec.nodes:
             st = h["nodes"].get(nd.name)
             if st is None or not st["started"]:
@@ -1007,6 +1042,43 @@ def c15_problems(h, spec: WfSpec):
                 if _finished(h).get(lb) != "ok":
                     bad.append(("never-executed", f"job {lb} was never executed"))
     return bad
+
+
+STALE_WINDOW = "rerun-stale-result-of-unstarted-job-taken-as-done"
+
+
+def c15_second_class(h, spec, probs):
+    """class predicate of the two-submission C15 finding: with rerun requested for every job, under the asynchronous
+    loop, a job consumes the value an upstream job produced in the FIRST submission because that upstream job --
+    handed to the worker at an EARLIER get_runnable_tasks call of this submission -- has not started yet (its lock
+    file has not been seen, its old result is still on disk) and is therefore taken as done.  Nothing else wrong."""
+    o = h["opts"]
+    if o["variant"] != "async" or not (o["rerun"] and o["propagate"]) or not probs:
+        return None
+    if any(k != "consumed-value-of-earlier-submission" for k, _ in probs):
+        return None
+    tag2node = {100 * (i + 1): nd.name for i, nd in enumerate(spec.nodes)}
+    id2job = {j["id"]: lb for lb, j in h["jobs"].items()}
+    seen_lock, last_call, submitted_at = set(), -1, {}
+    found = False
+    for i, e, executing, finished in timeline(h):
+        if e[0] == "call":
+            last_call = i
+        elif e[0] == "lock":
+            seen_lock.add(e[1])
+        elif e[0] == "submit":
+            submitted_at.setdefault(e[1], i)
+            j = h["jobs"][e[1]]
+            for slot in ("x", "y", "z"):
+                for v in j["inputs"][slot]:
+                    if v in id2job:
+                        continue
+                    p = tag2node.get(int(v.split("<")[0]) // 100 * 100)
+                    waiting = [q for q in executing if h["jobs"][q]["node"] == p and q not in seen_lock and submitted_at[q] < last_call]
+                    if not waiting:
+                        return None  # a stale value although no job of the upstream node is waiting to start
+                    found = True
+    return STALE_WINDOW if found else None
 
 
 def _inherits_split(spec, name):
@@ -1230,10 +1302,20 @@ def evaluate(pid, h, spec, opts):
     """-> (problems [(class, text)], nontrivial, stats)"""
     extra = {}
     if pid == "C15":
-        probs = c15_problems(h, spec)
-        out = [(None, f"{k}: {t}") for k, t in _dedup(probs)]
+        second = None
+        if opts.prior != "none":
+            second = {"effective": bool(opts.rerun and opts.propagate), "stored": h.get("first") or {}}
+            extra["second submissions in which at least one job is executed"] = 1 if any(e[0] == "submit" for e in h["events"]) else 0
+        probs = _dedup(c15_problems(h, spec, second))
+        klass = c15_second_class(h, spec, probs) if second is not None else None
+        if klass is not None:
+            out = [(klass, "; ".join(f"{k}: {t}" for k, t in probs[:3]))]
+        else:
+            out = [(None, f"{k}: {t}") for k, t in probs]
+        if second is not None:
+            out = [(k, f"second submission (prior={opts.prior}, rerun={opts.rerun}, propagate_rerun={opts.propagate}, {opts.variant} loop): {t}") for k, t in out]
         extra["re-offered after start (function-level observation, absorbed by the loops' de-duplication)"] = reoffers_after_start(h)
-        return out, len(h["jobs"]) >= 2, extra
+        return out, (len(h["jobs"]) >= 2 if second is None else len(second["stored"]) >= 2), extra
     if pid == "C14":
         probs, failed = c14_problems(h, spec)
         probs = _dedup(probs)
